@@ -56,7 +56,9 @@ def do_case(ctx, inp):
 def run(ctx):
     n_models = (200 if ctx.quick else 900) * (3 if ctx.search else 1)
     for _ in range(n_models):
-        a, o, t = gen_valid(ctx.rng, ctx.quick, prefix_p=0.2)
+        a, o, t = gen_valid(ctx.rng, ctx.quick, prefix_p=0.2, empty_p=0.04)
+        if ctx.rng.random() < 0.12:
+            a, o, t = gen_valid_signed_sum(ctx.rng)     # explicit signs against thresholds of either sign, leaves around zero
         # reduce() straight on the model as built (sub-propositions pre-fixed by construction reach reduce() as nodes; an
         # assume() before it would already have replaced them by their variable) …
         do_case(ctx, {"ast": a, "A": {}})
